@@ -230,6 +230,18 @@ func runC04(c *eng.Ctx) {
 			c.AfterAll("ORDER-commit", "reload-after-rename", fn, ren[len(ren)-1:], eng.PlainCallTo("storage.Volume).load"), eng.FailEdges(fn, eng.ErrNil(eng.ErrOf(ren[len(ren)-1]))), "the volume is reloaded from the swapped files")
 			// under the data file lock
 			c.Before("ORDER-commit", "under-lock", fn, eng.CallTo("sync.RWMutex).Lock"), mk, "the swap happens under dataFileAccessLock")
+			// the derived on-disk index (leveldb) is discarded before the reload: its freshness test compares
+			// modification times, and the renamed index file keeps the time of the compaction, so a kept leveldb
+			// would be reused with the offsets of the old data file
+			loads := eng.Find(fn, eng.PlainCallTo("storage.Volume).load"))
+			drop := func(in ssa.Instruction) bool {
+				x, ok := in.(*ssa.Call)
+				if !ok || !eng.CalleeIs(x, "os.RemoveAll", "os.Remove") {
+					return false
+				}
+				return eng.Mentions(x.Call.Args[0], 4, func(v ssa.Value) bool { sfx, isS := eng.ConstString(v); return isS && sfx == ".ldb" })
+			}
+			c.Before("ORDER-commit", "derived-index-dropped-before-reload", fn, drop, loads, "the leveldb needle map derived from the old index is removed before the volume is reloaded from the swapped files")
 		}
 	}
 	for _, name := range []string{"(*Volume).Compact", "(*Volume).Compact2"} {
